@@ -198,6 +198,21 @@ def _run_sub(ctx, sub, cfg, n, libs):
     return None
 
 
+def san_cfg(c):
+    """Under VERIF_SAN=1 every configuration is replaced by its ASan+UBSan build."""
+    if os.environ.get("VERIF_SAN") != "1":
+        return c
+    base, _, be = c.partition(":")
+    if base in ("asm", "p64", "p32"):
+        base += "-san"
+    return base + (":" + be if be else "")
+
+
+def scale(n):
+    f = float(os.environ.get("VERIF_SCALE", "1") or "1")
+    return max(1, int(n * f))
+
+
 def _worker(mod, pid, tier, vseed, worker, nworkers, only_sub, conn, journal=None):
     try:
         ctx = Ctx(pid, tier, vseed, worker, nworkers)
@@ -209,9 +224,10 @@ def _worker(mod, pid, tier, vseed, worker, nworkers, only_sub, conn, journal=Non
         for sub in mod.SUBCHECKS:
             if only_sub and sub.name != only_sub:
                 continue
-            total = sub.quick if tier == "quick" else sub.thorough
+            total = scale(sub.quick if tier == "quick" else sub.thorough)
             cfgs = sub.configs if tier == "quick" else sub.thorough_configs
             for cfg in cfgs:
+                cfg = san_cfg(cfg)
                 n = total // nworkers + (1 if worker < total % nworkers else 0)
                 if n <= 0:
                     continue
@@ -241,6 +257,8 @@ def replay_case(mod, pid, path, times=3, quiet=False):
     case = dec(body["case"])
     from . import lib as libmod
     cfg = body.get("config") or sub.configs[0]
+    if "-san" in cfg and os.environ.get("VERIF_SAN") != "1":
+        cfg = cfg.replace("-san", "")
     ctx = Ctx(pid, "quick", 0, 0, 1)
     ctx.sub, ctx.cfg = sub.name, cfg
     env = sub.setup(cfg) if sub.setup else libmod.get(*(cfg.split(":") + [None])[:2])
@@ -292,7 +310,7 @@ def run_property(mod, pid, tier, vseed, nworkers=None, only_sub=None, extra_stat
     cfgs = set()
     for sub in mod.SUBCHECKS:
         for c in (sub.configs if tier == "quick" else sub.thorough_configs):
-            cfgs.add(c.split(":")[0])
+            cfgs.add(san_cfg(c).split(":")[0])
     for c in sorted(cfgs):
         if c in build.CONFIGS:
             build.build_shim(c)
@@ -441,7 +459,8 @@ def run_property(mod, pid, tier, vseed, nworkers=None, only_sub=None, extra_stat
     if hasattr(mod, "finish"):
         mod.finish(evidence, agg)
     os.makedirs(os.path.join(VERIF, "evidence"), exist_ok=True)
-    with open(os.path.join(VERIF, "evidence", "%s.json" % pid), "w") as f:
+    epath = os.environ.get("VERIF_EVIDENCE_OUT") or os.path.join(VERIF, "evidence", "%s.json" % pid)
+    with open(epath, "w") as f:
         json.dump(evidence, f, indent=1)
     print("%s %s: %d cases, %d distinct non-trivial, %d violations, %.1fs" % (pid, tier, evidence["coverage"]["evaluations"], evidence["coverage"]["distinct_nontrivial"], len(violations), evidence["wall_s"]))
     return 1 if violations else 0
